@@ -18,6 +18,17 @@ AREAS = {
     "pointer": ["C15", "C16", "C17", "C14", "C07", "C20"],
     "patch": ["C16", "C17", "C14", "C19", "C20", "C07", "C15"],
     "merge": ["C17", "C18", "C19", "C14", "C20", "C07", "C16"],
+    # second round
+    "parser2": ["C01", "C02", "C03", "C04", "C07", "C08", "C10", "C13", "C14", "C20"],
+    "printer2": ["C04", "C05", "C07", "C08", "C09", "C14", "C20", "C01", "C11", "C06"],
+    "edit2": ["C06", "C07", "C08", "C11", "C14", "C19", "C16", "C17", "C18", "C12", "C15"],
+    "memory2": ALL,
+    "numbers": ["C01", "C02", "C03", "C04", "C05", "C09", "C10", "C12", "C16", "C17", "C18", "C06", "C08", "C20"],
+    "utils_misc": ["C15", "C16", "C17", "C18", "C19", "C14", "C07", "C20"],
+    "patch2": ["C16", "C17", "C14", "C19", "C20", "C07", "C15"],
+    "generate2": ["C17", "C18", "C19", "C14", "C20", "C07", "C16"],
+    "robust": ALL,
+    "style": ALL,
 }
 
 
